@@ -1,2 +1,637 @@
-def run_for(ctx, pid):
-    pass
+"""Receive-side properties (C02-C07, frame phase of C17): scenario families, execution against
+the real library (vf/recvworld.py), validation of the recorded traces by TLC (TraceRecv), and
+the model-checking run of the receive machine itself (RecvMC)."""
+import concurrent.futures as cf
+import itertools
+import os
+import random
+
+from .. import tlc, wire
+from ..recvworld import run_scenario
+
+T, B, C, CL, PI, PO = 1, 2, 0, 8, 9, 10
+MSG_APIS = [["recv_data_frame", False], ["recv_data_frame", True], ["recv_data", False], ["recv", False]]
+ALL_APIS = MSG_APIS + [["recv_frame", False]]
+
+
+# ---------------------------------------------------------------------------------------------
+# TLC: model checking of the machine
+# ---------------------------------------------------------------------------------------------
+MC_FRAMES = """FrameSetV == { ServerFrame(1,0,1,<<97>>), ServerFrame(0,0,1,<<206>>), ServerFrame(1,0,0,<<177>>),
+  ServerFrame(0,0,0,<<>>), ServerFrame(1,0,2,<<255>>), ServerFrame(1,0,9,<<1>>), ServerFrame(1,0,10,<<>>),
+  ServerFrame(1,0,8,<<3,232>>), ServerFrame(1,4,1,<<97>>), ServerFrame(1,0,3,<<>>), ServerFrame(0,0,9,<<>>),
+  ServerFrame(1,0,1,<<206>>), ServerFrame(0,0,10,<<>>), ServerFrame(1,0,8,<<3>>) }
+"""
+MC_FRAMES_SMALL = """FrameSetV == { ServerFrame(0,0,1,<<206>>), ServerFrame(1,0,0,<<177>>), ServerFrame(0,0,0,<<>>),
+  ServerFrame(1,0,9,<<1>>), ServerFrame(1,0,2,<<255>>), ServerFrame(1,0,8,<<3,232>>) }
+"""
+MC_INVS = ["StepAccepts", "SegIndep", "Conservation", "NoLoss", "ReassemblyExact", "RejectIffIllegal",
+           "PongsMirrorPings", "CloseReplyOnce"]
+
+
+def mc_cfg(maxframes, maxto, fire="{FALSE, TRUE}", skip="{FALSE}", invs=MC_INVS, props=("PongBeforeRead",)):
+    return ("INIT Init\nNEXT Next\nCONSTANTS\n FrameSet <- FrameSetV\n MaxFrames = %d\n Apis <- ApisV\n"
+            " FireConts = %s\n SkipUtf8s = %s\n MaxTimeouts = %d\n Tails <- TailsV\n" % (maxframes, fire, skip, maxto)
+            + "".join("INVARIANT %s\n" % i for i in invs) + "".join("PROPERTY %s\n" % p for p in props))
+
+
+def mc_module(name, frames, apis=None, tails="{ <<>>, <<129>> }"):
+    apis = apis or '{ <<"recv_data_frame", TRUE>>, <<"recv_data_frame", FALSE>>, <<"recv", FALSE>>, <<"recv_frame", FALSE>> }'
+    return {name: "---- MODULE %s ----\nEXTENDS RecvMC\n%sApisV == %s\nTailsV == %s\n====\n" % (name, frames, apis, tails)}
+
+
+def model_check(ctx, pid):
+    """Exhaustive TLC runs of RecvMC; the same runs serve C02-C07 (each check re-runs them: the
+    verdict of a check never depends on another check having been run)."""
+    runs = []
+    if ctx.tier == "quick":
+        runs.append(("RecvMC_a", mc_module("RecvMC_a", MC_FRAMES), mc_cfg(2, 1), "2 frames from a 14-frame alphabet, all cuts, <=1 timeout, 4 APIs, fireCont on/off"))
+        runs.append(("RecvMC_b", mc_module("RecvMC_b", MC_FRAMES_SMALL, tails="{ <<>> }"), mc_cfg(3, 0, skip="{FALSE, TRUE}"),
+                     "3 frames from a 6-frame alphabet, all cuts, no timeouts, utf8 validation on/off"))
+    else:
+        runs.append(("RecvMC_a", mc_module("RecvMC_a", MC_FRAMES), mc_cfg(2, 2, skip="{FALSE, TRUE}"), "2 frames/14-frame alphabet, <=2 timeouts, all flags"))
+        runs.append(("RecvMC_b", mc_module("RecvMC_b", MC_FRAMES), mc_cfg(3, 0), "3 frames/14-frame alphabet, all cuts"))
+        runs.append(("RecvMC_c", mc_module("RecvMC_c", MC_FRAMES_SMALL, tails="{ <<>> }"), mc_cfg(4, 1, skip="{FALSE, TRUE}"), "4 frames/6-frame alphabet, <=1 timeout"))
+    for name, gen, cfg, what in runs:
+        r = tlc.run(name, cfg, "%s_%s" % (pid.lower(), name), gen=gen, timeout=3000, coverage=False)
+        ctx.add_tlc(r, "RecvMC: " + what)
+        if r.violated:
+            ctx.machinery_error = "specification self-check failed: RecvMC %s violated %s" % (name, r.violated)
+    # vacuity guard: the witnesses must be reachable (TLC must violate them)
+    wit = ["W_Reassembled", "W_Protocol", "W_Pong"]
+    r = tlc.run("RecvMC_w", mc_cfg(2, 0, invs=wit, props=()), "%s_RecvMC_w" % pid.lower(),
+                gen=mc_module("RecvMC_w", MC_FRAMES), timeout=600, extra=["-continue"])
+    missing = [w for w in wit if w not in r.violated]
+    ctx.notes["witnesses_reached"] = [w for w in wit if w in r.violated]
+    if missing:
+        ctx.machinery_error = "vacuity guard: witnesses not reachable in RecvMC: %s" % missing
+
+
+# ---------------------------------------------------------------------------------------------
+# executing scenarios and validating the traces
+# ---------------------------------------------------------------------------------------------
+def _run_chunk(scs):
+    out = []
+    for sc in scs:
+        try:
+            out.append(run_scenario(sc))
+        except Exception as e:      # harness-level failure: surfaces as machinery error
+            out.append([{"ev": "begin", "tid": sc["tid"], "i": 0, "stream": [], "fireCont": False, "skipUtf8": False},
+                        {"ev": "harness_error", "tid": sc["tid"], "i": 1, "what": repr(e)[:200]},
+                        {"ev": "end", "tid": sc["tid"], "i": 2}])
+    return out
+
+
+def execute(scenarios, procs=12):
+    if len(scenarios) < 200:
+        return _run_chunk(scenarios)
+    chunks = [scenarios[i::procs] for i in range(procs)]
+    res = {}
+    with cf.ProcessPoolExecutor(procs) as ex:
+        for traces in ex.map(_run_chunk, chunks):
+            for t in traces:
+                res[t[0]["tid"]] = t
+    return [res[sc["tid"]] for sc in scenarios]
+
+
+def _tlc_shard(args):
+    k, path, tag = args
+    r = tlc.run("TraceRecv", "SPECIFICATION TSpec\nINVARIANT TConservation\nINVARIANT TPongs\nINVARIANT Report\n",
+                tag, env={"TRACE_FILE": path}, workers=1, timeout=3000, heap="3g")
+    return k, r
+
+
+def validate(ctx, pid, scenarios, tag, shards=12):
+    """Returns list of (scenario, bad record) for rejected traces; accounts everything in ctx."""
+    traces = execute(scenarios)
+    nshards = max(1, min(shards, len(traces) // 40))
+    d = tlc.scratch("%s_%s_traces" % (pid.lower(), tag))
+    jobs = []
+    for k in range(nshards):
+        path = os.path.join(d, "t%d.ndjson" % k)
+        with open(path, "w") as f:
+            import json
+            for t in traces[k::nshards]:
+                for e in t:
+                    f.write(json.dumps(e, separators=(",", ":")) + "\n")
+        jobs.append((k, path, "%s_%s_v%d" % (pid.lower(), tag, k)))
+    bad = []
+    accepted = 0
+    with cf.ThreadPoolExecutor(nshards) as ex:
+        for k, r in ex.map(_tlc_shard, jobs):
+            ctx.add_tlc(r, "TraceRecv shard %d of %s" % (k, tag))
+            if r.violated:
+                ctx.machinery_error = "TraceRecv invariant %s violated while validating %s" % (r.violated, tag)
+            v = tlc.emitted(r, "VERDICT")
+            if not v:
+                raise tlc.TlcError("TraceRecv produced no verdict for %s shard %d" % (tag, k))
+            bad += v[0]["bad"]
+            accepted += v[0]["accepted"]
+    by_tid = {sc["tid"]: sc for sc in scenarios}
+    tr_by_tid = {t[0]["tid"]: t for t in traces}
+    ctx.traces += len(traces)
+    out = []
+    for b in bad:
+        sc = by_tid[b["tid"]]
+        out.append((sc, b, tr_by_tid[b["tid"]]))
+    for sc in scenarios:
+        ctx.case((tag, bytes(sc["stream"]), repr(sc.get("cuts")), repr(sc.get("timeouts")), repr(sc["calls"]),
+                  sc.get("fireCont"), sc.get("skipUtf8"), sc.get("end")), nontrivial=len(sc["stream"]) > 0)
+    if traces:
+        t = traces[len(traces) // 2]
+        ctx.sample({"family": tag, "trace_excerpt": [{k: v for k, v in e.items() if k != "tid"} for e in t[:8]]})
+    ctx.notes.setdefault("families", {})[tag] = {"traces": len(traces), "accepted": accepted, "rejected": len(bad)}
+    return out
+
+
+def judge(ctx, pid, rejected):
+    """Turns rejected traces into verdicts for property `pid`."""
+    for sc, b, trace in rejected:
+        why = b["why"]
+        owner = why.split(".")[0]
+        rep = {"scenario": _jsonable(sc), "rejected_at": b["at"], "event": b["ev"], "clause": why,
+               "trace": [{k: v for k, v in e.items() if k != "tid"} for e in trace[max(0, b["at"] - 6):b["at"] + 2]]}
+        if owner == "harness":
+            ctx.machinery_error = "harness inconsistency in trace %s: %s" % (sc["tid"], why)
+        elif owner == pid:
+            ctx.deviation(None, "trace %s rejected at event %d (%s): clause %s; stream=%s cfg=fireCont:%s skipUtf8:%s api=%s"
+                          % (sc["tid"], b["at"], b["ev"], why, bytes(sc["stream"])[:40].hex(), sc.get("fireCont"),
+                             sc.get("skipUtf8"), sc["calls"][0][0]), rep)
+        else:
+            ctx.remark("clause %s (owned by %s) failed in a %s scenario; judged by ./check %s" % (why, owner, pid, owner))
+
+
+def _jsonable(sc):
+    o = dict(sc)
+    o["stream"] = list(sc["stream"])
+    return o
+
+
+# ---------------------------------------------------------------------------------------------
+# scenario families
+# ---------------------------------------------------------------------------------------------
+class Fam:
+    def __init__(self, prefix):
+        self.prefix = prefix
+        self.n = 0
+        self.out = []
+
+    def add(self, stream, calls, cuts=(), timeouts=(), end="eof", fireCont=False, skipUtf8=False,
+            max_calls=None, via_connect=False):
+        self.n += 1
+        nfr = len(wire_frames_guess(stream))
+        self.out.append(dict(tid="%s%d" % (self.prefix, self.n), stream=bytes(stream), calls=[list(c) for c in calls],
+                             cuts=cuts if cuts == "every" else sorted(cuts), timeouts=sorted(timeouts), end=end,
+                             fireCont=fireCont, skipUtf8=skipUtf8,
+                             max_calls=max_calls or (nfr + len(timeouts) + 4), via_connect=via_connect))
+
+
+def wire_frames_guess(stream):
+    """number of frames (best effort) to size the call budget"""
+    try:
+        return wire.decode_client_frames(bytes(stream))
+    except Exception:
+        return [None] * 6
+
+
+def header_boundaries(frames):
+    """cut positions at every header / extension / key / payload boundary of a list of frame byte strings"""
+    cuts = set()
+    p = 0
+    for fr in frames:
+        l7 = fr[1] & 0x7F
+        ext = 2 if l7 == 126 else 8 if l7 == 127 else 0
+        mk = 4 if fr[1] & 0x80 else 0
+        for c in (1, 2, 2 + ext, 2 + ext + mk, 2 + ext + mk + 1):
+            if 0 < c < len(fr):
+                cuts.add(p + c)
+        p += len(fr)
+        cuts.add(p)
+    cuts.discard(p)
+    return cuts
+
+
+def fam_decode(rng, tier):
+    """C02: every first header byte x mask x length class, extended forms, non-minimal encodings,
+    streams of several frames back to back; whole / byte-wise / boundary cuts."""
+    f = Fam("dec")
+    small = []
+    for b1 in range(256):
+        op, rsv, fin = b1 & 15, (b1 >> 4) & 7, b1 >> 7
+        for masked in (0, 1):
+            for n in (0, 1, 125):
+                if tier == "quick" and n == 125 and (b1 % 4):
+                    continue
+                pl = bytes(rng.randrange(256) for _ in range(n))
+                if op == 8 and n >= 2:
+                    pl = bytes([3, 232]) + bytes(rng.randrange(32, 127) for _ in range(n - 2))
+                key = bytes(rng.randrange(256) for _ in range(4)) if masked else None
+                small.append(wire.sframe(op, pl, fin, rsv, key))
+    rng.shuffle(small)
+    i = 0
+    while i < len(small):
+        k = rng.randrange(1, 5)
+        frames = small[i:i + k]
+        i += k
+        stream = b"".join(frames)
+        mode = rng.randrange(3)
+        cuts = () if mode == 0 else "every" if (mode == 1 and len(stream) < 80) else header_boundaries(frames)
+        api = rng.choice([["recv_frame", False]] * 3 + [["recv_data_frame", True]])
+        f.add(stream, [api], cuts=cuts, max_calls=k + 3)
+    # extended length forms and non-minimal encodings
+    ext = [(126, None), (127, None), (300, None), (65535, None), (5, 2), (125, 2), (0, 2), (5, 8), (300, 8), (0, 8)]
+    big = [(65536, None), (65537, None), (70000, None)]
+    for n, form in ext + (big if tier == "thorough" else big[:1]):
+        for masked in (0, 1):
+            for op in ((T, B) if n < 60000 else (B,)):
+                if tier == "quick" and n >= 60000 and masked:
+                    continue
+                pl = bytes(rng.randrange(256) for _ in range(n)) if op == B else bytes(rng.randrange(32, 127) for _ in range(n))
+                key = bytes(rng.randrange(256) for _ in range(4)) if masked else None
+                fr = wire.sframe(op, pl, 1, 0, key, length_form=form)
+                follow = wire.sframe(T, b"next")
+                for cuts in ((), header_boundaries([fr, follow])):
+                    f.add(fr + follow, [rng.choice(ALL_APIS)], cuts=cuts, max_calls=4)
+    return f.out
+
+
+def compositions(n, maxparts):
+    """all ways to write n as an ordered sum of 1..maxparts non-negative parts (empty parts allowed)"""
+    out = []
+    for k in range(1, maxparts + 1):
+        for cutpoints in itertools.combinations_with_replacement(range(n + 1), k - 1):
+            pts = (0,) + cutpoints + (n,)
+            out.append([pts[i + 1] - pts[i] for i in range(k)])
+    return out
+
+
+TEXTS = [b"", b"a", b"ab", "é".encode(), "aé".encode(), "€".encode(), "\U0001f600".encode(), b"abcd", "éa€".encode()[:4]]
+
+
+def fam_fragments(rng, tier, apis=None):
+    """C04: all ways of cutting a message into 1..4 fragments (empty ones included), text and binary,
+    pings/pongs in every gap, two messages in a row, per-fragment delivery and validation on/off."""
+    f = Fam("frag")
+    apis = apis or MSG_APIS
+    msgs = [m for m in TEXTS if len(m) <= 4]
+    for m in msgs:
+        for parts in compositions(len(m), 4 if tier == "thorough" or len(m) <= 3 else 3):
+            for op in (T, B):
+                frames = []
+                p = 0
+                for i, ln in enumerate(parts):
+                    frames.append(wire.sframe(op if i == 0 else C, m[p:p + ln], fin=1 if i == len(parts) - 1 else 0))
+                    p += ln
+                gaps = len(frames) + 1
+                # controls in gaps: none, a ping in one gap, ping+pong in one gap, pings in all gaps
+                variants = [dict()]
+                g = rng.randrange(gaps)
+                variants.append({g: [wire.sframe(PI, b"p%d" % g)]})
+                if tier == "thorough" or rng.random() < 0.3:
+                    variants.append({rng.randrange(gaps): [wire.sframe(PI, b""), wire.sframe(PO, b"x")]})
+                    variants.append({k: [wire.sframe(PI, bytes([k]))] for k in range(gaps)})
+                for var in variants:
+                    seq = []
+                    for i in range(gaps):
+                        seq += var.get(i, [])
+                        if i < len(frames):
+                            seq.append(frames[i])
+                    second = wire.sframe(rng.choice([T, B]), b"zz")
+                    stream = b"".join(seq) + second
+                    for fire in (False, True):
+                        for skip in ((False, True) if (tier == "thorough" or rng.random() < 0.25) else (False,)):
+                            api = rng.choice(apis)
+                            cuts = rng.choice([(), "every", header_boundaries(seq + [second])])
+                            f.add(stream, [api], cuts=cuts, fireCont=fire, skipUtf8=skip, max_calls=len(seq) + 4)
+    # longer messages, many fragments (thorough: up to 64 fragments)
+    for _ in range(40 if tier == "quick" else 400):
+        nfr = rng.randrange(2, 9 if tier == "quick" else 65)
+        text = "".join(rng.choice("aé€\U0001f600z") for _ in range(rng.randrange(1, 12))).encode()
+        pts = sorted(rng.randrange(len(text) + 1) for _ in range(nfr - 1))
+        pts = [0] + pts + [len(text)]
+        op = rng.choice([T, B])
+        seq = []
+        for i in range(nfr):
+            seq.append(wire.sframe(op if i == 0 else C, text[pts[i]:pts[i + 1]], fin=1 if i == nfr - 1 else 0))
+            if rng.random() < 0.3:
+                seq.append(wire.sframe(rng.choice([PI, PO]), bytes(rng.randrange(256) for _ in range(rng.randrange(4)))))
+        nmsg = rng.randrange(0, 3)
+        for _ in range(nmsg):
+            seq.append(wire.sframe(rng.choice([T, B]), bytes(rng.randrange(97, 123) for _ in range(rng.randrange(5)))))
+        stream = b"".join(seq)
+        f.add(stream, [rng.choice(apis)], cuts=rng.choice([(), header_boundaries(seq)]), fireCont=rng.random() < 0.4,
+              skipUtf8=rng.random() < 0.3, max_calls=len(seq) + 4)
+    return f.out
+
+
+HIST_ALPHABET = {
+    "T0": lambda: wire.sframe(T, b"a", 0), "T1": lambda: wire.sframe(T, b"b", 1),
+    "B0": lambda: wire.sframe(B, b"\x01", 0), "B1": lambda: wire.sframe(B, b"\x02", 1),
+    "C0": lambda: wire.sframe(C, b"c", 0), "C1": lambda: wire.sframe(C, b"d", 1),
+    "PI": lambda: wire.sframe(PI, b"i"), "PO": lambda: wire.sframe(PO, b"o"),
+    "CL": lambda: wire.sframe(CL, b"\x03\xe8"),
+}
+
+
+def fam_legality(rng, tier):
+    """C05: (i) all 256 first bytes x payload-length classes; close bodies; (ii) all sequencing
+    histories up to a bound over {T0,T1,B0,B1,C0,C1,ping,pong,close}."""
+    f = Fam("leg")
+    for b1 in range(256):
+        op, rsv, fin = b1 & 15, (b1 >> 4) & 7, b1 >> 7
+        for n in (0, 1, 2, 125, 126):
+            if op == 8 and n >= 2:
+                pl = bytes([3, 232]) + b"r" * (n - 2)
+            elif op == 1:
+                pl = b"t" * n
+            else:
+                pl = bytes(rng.randrange(256) for _ in range(n))
+            fr = wire.sframe(op, pl, fin, rsv)
+            pre = wire.sframe(T, b"m", 0) if op == 0 else b""     # a continuation needs a message in progress
+            apis = ALL_APIS if (tier == "thorough" or n in (0, 126)) else [rng.choice(ALL_APIS)]
+            for api in apis:
+                if api[0] == "recv_frame" and pre:
+                    continue
+                f.add(pre + fr + wire.sframe(B, b"after"), [api], max_calls=4)
+    # close bodies: length 1, reasons of every UTF-8 validity class, codes at the edges
+    reasons = [b"", b"bye", "é".encode(), b"\xc3", b"\xe2\x82", b"\xed\xa0\x80", b"\xc0\x80", b"\xf4\x90\x80\x80", b"ok\xff"]
+    codes = [0, 999, 1000, 1001, 1003, 1004, 1005, 1006, 1007, 1011, 1014, 1015, 1016, 2999, 3000, 4999, 5000, 65535]
+    for code in codes:
+        for r in reasons:
+            for skip in (False, True):
+                f.add(wire.sframe(CL, bytes([code >> 8, code & 255]) + r), [rng.choice(ALL_APIS)], skipUtf8=skip, max_calls=2)
+    f.add(wire.sframe(CL, b"\x03"), [["recv", False]], max_calls=2)
+    f.add(wire.sframe(CL, b"\x03"), [["recv_frame", False]], max_calls=2)
+    f.add(wire.sframe(CL, bytes([3, 232]) + b"r" * 124, length_form=2), [["recv_data_frame", True]], max_calls=2)
+    # sequencing histories
+    names = sorted(HIST_ALPHABET)
+    maxlen = 3 if tier == "quick" else 4
+    for k in range(1, maxlen + 1):
+        for h in itertools.product(names, repeat=k):
+            if "CL" in h[:-1]:
+                continue
+            stream = b"".join(HIST_ALPHABET[x]() for x in h)
+            f.add(stream, [rng.choice(MSG_APIS)], max_calls=k + 2, fireCont=rng.random() < 0.2)
+    for _ in range(300 if tier == "quick" else 4000):
+        k = maxlen + 1 + rng.randrange(2)
+        h = [rng.choice(names[:-0 or None]) for _ in range(k)]
+        if "CL" in h[:-1]:
+            continue
+        f.add(b"".join(HIST_ALPHABET[x]() for x in h), [rng.choice(MSG_APIS)], max_calls=k + 2)
+    return f.out
+
+
+def fam_utf8(rng, tier):
+    """C06 at message level: code points split across fragments, ill-formed text and close reasons,
+    validation off -> bytes pass through unchanged."""
+    f = Fam("u8")
+    from .c06 import BAD, SEEDS
+    good = [s.encode() for s in SEEDS if s]
+    for txt in good + BAD + [g + b for g in good[:4] for b in BAD[:8]]:
+        cutsets = [[]] + [[k] for k in range(1, len(txt))] + ([[1, 2]] if len(txt) > 2 else [])
+        for cs in cutsets:
+            pts = [0] + cs + [len(txt)]
+            seq = [wire.sframe(T if i == 0 else C, txt[pts[i]:pts[i + 1]], fin=1 if i == len(pts) - 2 else 0)
+                   for i in range(len(pts) - 1)]
+            for skip, fire in ((False, False), (True, False), (False, True)):
+                for api in (MSG_APIS if tier == "thorough" else [rng.choice(MSG_APIS)]):
+                    f.add(b"".join(seq) + wire.sframe(B, b"\xff"), [api], skipUtf8=skip, fireCont=fire, max_calls=len(seq) + 3)
+        # the same bytes as a binary message are never validated
+        f.add(wire.sframe(B, txt), [rng.choice(MSG_APIS)], max_calls=2)
+        # and as a close reason
+        if len(txt) <= 123:
+            for skip in (False, True):
+                f.add(wire.sframe(CL, b"\x03\xe8" + txt), [rng.choice(ALL_APIS)], skipUtf8=skip, max_calls=2)
+    return f.out
+
+
+def fam_pings(rng, tier):
+    """C07: every ping payload length 0..125 (126 is illegal), pings before / between / inside
+    fragmented messages, any number of them, with and without control-frame reporting."""
+    f = Fam("ping")
+    for n in range(0, 127):
+        pl = bytes(rng.randrange(256) for _ in range(n))
+        for control in (False, True):
+            fr = wire.sframe(PI, pl)
+            f.add(fr + wire.sframe(T, b"x"), [["recv_data_frame", control]], max_calls=3,
+                  cuts=rng.choice([(), header_boundaries([fr])]))
+        f.add(wire.sframe(PI, pl) + wire.sframe(T, b"x"), [rng.choice([["recv", False], ["recv_data", False], ["recv_data", True]])], max_calls=3)
+    for _ in range(150 if tier == "quick" else 2500):
+        seq = []
+        nmsg = rng.randrange(1, 4)
+        for _m in range(nmsg):
+            nfr = rng.randrange(1, 4)
+            op = rng.choice([T, B])
+            for i in range(nfr):
+                for _p in range(rng.choice([0, 0, 1, 1, 2, 3]) if tier == "quick" else rng.randrange(0, 7)):
+                    seq.append(wire.sframe(rng.choice([PI, PI, PO]), bytes(rng.randrange(256) for _ in range(rng.choice([0, 1, 2, 125])))))
+                seq.append(wire.sframe(op if i == 0 else C, bytes(rng.randrange(97, 123) for _ in range(rng.randrange(3))),
+                                       fin=1 if i == nfr - 1 else 0))
+        if rng.random() < 0.5:
+            seq.append(wire.sframe(PI, b"tail"))
+        api = rng.choice(MSG_APIS + [["recv_data", True]])
+        f.add(b"".join(seq), [api], cuts=rng.choice([(), "every", header_boundaries(seq)]),
+              timeouts=[rng.randrange(len(b"".join(seq)))] if rng.random() < 0.3 else (),
+              end=rng.choice(["eof", "timeout"]), fireCont=rng.random() < 0.25, max_calls=len(seq) + 5)
+    return f.out
+
+
+def fam_segmentation(rng, tier):
+    """C03: exhaustive partitions of short streams, timeouts at every position (and pairs), long
+    streams byte by byte and with random cuts, head and frames in one flow (via the real connect)."""
+    f = Fam("seg")
+    shorts = [
+        [wire.sframe(T, b"hi")],
+        [wire.sframe(T, b"a", 0), wire.sframe(C, b"b", 1)],
+        [wire.sframe(PI, b"p"), wire.sframe(B, b"\x00")],
+        [wire.sframe(T, "é".encode()[:1], 0), wire.sframe(PI, b""), wire.sframe(C, "é".encode()[1:], 1)],
+        [wire.sframe(PO, b""), wire.sframe(T, b"x"), wire.sframe(CL, b"\x03\xe8")],
+        [wire.sframe(B, b"ab", mask=b"\x01\x02\x03\x04")],
+        [wire.sframe(T, b"ok"), wire.sframe(T, b"\xff")],
+        [wire.sframe(T, b"q"), wire.sframe(C, b"bad")],
+    ]
+    for frames in shorts:
+        stream = b"".join(frames)
+        L = len(stream)
+        allcuts = list(range(1, L))
+        apis = MSG_APIS if tier == "thorough" else [MSG_APIS[0], MSG_APIS[1], MSG_APIS[3]]
+        subsets = []
+        if L <= (14 if tier == "thorough" else 10):
+            for k in range(len(allcuts) + 1):
+                subsets += list(itertools.combinations(allcuts, k))
+        else:
+            subsets = [(), tuple(allcuts)] + [tuple(sorted(rng.sample(allcuts, rng.randrange(1, len(allcuts)))))
+                                               for _ in range(300 if tier == "quick" else 3000)]
+        for ai, api in enumerate(apis):
+            for cs in subsets:
+                f.add(stream, [api], cuts=cs, end="eof", max_calls=len(frames) + 3,
+                      via_connect=(hash((cs, ai)) % 7 == 0))
+            # one timeout at every position, every pair (thorough) - with the finest and the coarsest cutting
+            for p in range(L + 1):
+                for cs in ((), "every"):
+                    f.add(stream, [api], cuts=cs, timeouts=[p], end="timeout", max_calls=len(frames) + 4)
+            pairs = list(itertools.combinations_with_replacement(range(L + 1), 2))
+            if tier == "quick":
+                pairs = rng.sample(pairs, min(len(pairs), 25))
+            for p, q in pairs:
+                f.add(stream, [api], cuts=rng.choice([(), "every"]), timeouts=[p, q], end="eof", max_calls=len(frames) + 5,
+                      via_connect=rng.random() < 0.1)
+    # long mixed streams
+    for _ in range(60 if tier == "quick" else 1200):
+        seq = []
+        for _k in range(rng.randrange(2, 9)):
+            kind = rng.random()
+            if kind < 0.4:
+                seq.append(wire.sframe(rng.choice([T, B]), bytes(rng.randrange(97, 123) for _ in range(rng.choice([0, 1, 5, 130, 300])))))
+            elif kind < 0.7:
+                op = rng.choice([T, B])
+                n = rng.randrange(2, 5)
+                for i in range(n):
+                    seq.append(wire.sframe(op if i == 0 else C, bytes(rng.randrange(97, 123) for _ in range(rng.randrange(4))), fin=1 if i == n - 1 else 0))
+                    if rng.random() < 0.3:
+                        seq.append(wire.sframe(PI, b"k"))
+            else:
+                seq.append(wire.sframe(rng.choice([PI, PO]), bytes(rng.randrange(256) for _ in range(rng.randrange(6)))))
+        stream = b"".join(seq)
+        L = len(stream)
+        for mode in range(3):
+            cuts = "every" if (mode == 0 and L < 400) else sorted(rng.sample(range(1, L), min(L - 1, rng.randrange(1, 12)))) if mode == 1 else ()
+            tmo = sorted(rng.randrange(L + 1) for _ in range(rng.choice([0, 1, 2, 3])))
+            f.add(stream, [rng.choice(MSG_APIS)], cuts=cuts, timeouts=tmo, end=rng.choice(["eof", "timeout", "reset"]),
+                  max_calls=len(seq) + len(tmo) + 4, via_connect=rng.random() < 0.3, fireCont=rng.random() < 0.2)
+    return f.out
+
+
+def fam_garbage(rng, tier):
+    """C17 frame phase: exhaustive two-byte prefixes, random bytes, valid traffic with one field
+    corrupted or truncated, oversized declared lengths with a few bytes behind; then EOF or silence."""
+    f = Fam("gar")
+    pairs = [(a, b) for a in range(256) for b in range(256)]
+    if tier == "quick":
+        pairs = [(a, b) for a in range(256) for b in (0, 1, 2, 125, 126, 127, 128, 129, 253, 254, 255)]
+        pairs = rng.sample(pairs, 900)
+    for a, b in pairs:
+        f.add(bytes([a, b]) + bytes(rng.randrange(256) for _ in range(rng.choice([0, 1, 3, 9]))),
+              [rng.choice(ALL_APIS)], end=rng.choice(["eof", "timeout"]), max_calls=4,
+              skipUtf8=rng.random() < 0.3, fireCont=rng.random() < 0.3)
+    # oversized declared lengths
+    for declared in (1 << 16, (1 << 31) - 1, 1 << 31, 1 << 32, 1 << 62, (1 << 63) - 1, 1 << 63, (1 << 64) - 1):
+        for op in (T, B, PI, CL, C, 3):
+            for masked in (None, b"abcd"):
+                fr = wire.sframe(op, b"xyz", 1, 0, masked, length_form=8, declared=declared)
+                for end in ("eof", "timeout"):
+                    f.add(fr, [rng.choice(ALL_APIS)], end=end, max_calls=3)
+    f.add(wire.sframe(T, b"xyz", declared=65535, length_form=2), [["recv", False]], end="eof", max_calls=3)
+    # valid traffic, one corruption
+    for _ in range(500 if tier == "quick" else 20000):
+        seq = [wire.sframe(rng.choice([T, B, PI, PO, C, CL]), bytes(rng.randrange(256) for _ in range(rng.choice([0, 1, 2, 3, 10]))),
+                           fin=rng.choice([0, 1, 1])) for _k in range(rng.randrange(1, 5))]
+        s = bytearray(b"".join(seq))
+        m = rng.random()
+        if s and m < 0.5:
+            s[rng.randrange(len(s))] = rng.randrange(256)
+        elif s and m < 0.8:
+            del s[rng.randrange(len(s)):]
+        else:
+            s += bytes(rng.randrange(256) for _ in range(rng.randrange(1, 6)))
+        f.add(bytes(s), [rng.choice(ALL_APIS)], cuts=rng.choice([(), "every"]), end=rng.choice(["eof", "timeout", "reset"]),
+              max_calls=8, skipUtf8=rng.random() < 0.4, fireCont=rng.random() < 0.4)
+    for _ in range(300 if tier == "quick" else 20000):
+        f.add(bytes(rng.randrange(256) for _ in range(rng.randrange(1, 24))), [rng.choice(ALL_APIS)],
+              end=rng.choice(["eof", "timeout"]), max_calls=8, skipUtf8=rng.random() < 0.4, fireCont=rng.random() < 0.4)
+    return f.out
+
+
+def fam_common(rng, tier):
+    """A small mixed pool that every receive-side check runs, so that a clause of property X broken
+    by a change is seen by ./check X even if X's focused families do not exercise that path."""
+    out = []
+    for fam in (fam_decode, fam_fragments, fam_legality, fam_utf8, fam_pings, fam_segmentation):
+        scs = fam(random.Random(rng.random()), "quick")
+        rng.shuffle(scs)
+        out += scs[:120]
+    for i, sc in enumerate(out):
+        sc["tid"] = "com%d" % i
+    return out
+
+
+FAMILIES = {
+    "C02": [("decode", fam_decode)],
+    "C03": [("segmentation", fam_segmentation)],
+    "C04": [("fragments", fam_fragments)],
+    "C05": [("legality", fam_legality)],
+    "C06": [("utf8_messages", fam_utf8)],
+    "C07": [("pings", fam_pings)],
+    "C17": [("garbage_frames", fam_garbage)],
+}
+
+
+def run_for(ctx, pid, with_mc=True):
+    rng = random.Random(ctx.seed * 1000003 + int(pid[1:]))
+    if with_mc:
+        model_check(ctx, pid)
+    fams = FAMILIES[pid] + [("common_pool", fam_common)]
+    for tag, fn in fams:
+        scs = fn(rng, ctx.tier)
+        rejected = validate(ctx, pid, scs, tag)
+        judge(ctx, pid, rejected)
+    negative_controls(ctx, pid)
+
+
+def negative_controls(ctx, pid):
+    """Binding demonstrated: a recorded trace with one field corrupted / one event removed must be
+    rejected by TraceRecv (counts go to the evidence; a control that is accepted is a machinery failure)."""
+    sc = dict(tid="neg0", stream=wire.sframe(PI, b"hello") + wire.sframe(T, b"a", 0) + wire.sframe(C, b"b", 1),
+              calls=[["recv_data_frame", False]], cuts=(), timeouts=[], end="eof", fireCont=False, skipUtf8=False, max_calls=3)
+    base = run_scenario(sc)
+    variants = []
+
+    def clone(tid):
+        import copy
+        t = copy.deepcopy(base)
+        for e in t:
+            e["tid"] = tid
+        return t
+    t = clone("neg_payload")
+    [e for e in t if e["ev"] == "ret"][0]["data"][0] ^= 1
+    variants.append(t)
+    t = clone("neg_pong_removed")
+    t.remove([e for e in t if e["ev"] == "tsend"][0])
+    variants.append(t)
+    t = clone("neg_pong_payload")
+    [e for e in t if e["ev"] == "tsend"][0]["bytes"][-1] ^= 0x20
+    variants.append(t)
+    t = clone("neg_opcode")
+    [e for e in t if e["ev"] == "ret"][0]["op"] = 2
+    variants.append(t)
+    t = clone("neg_req")
+    [e for e in t if e["ev"] == "trecv"][0]["req"] = 20000
+    variants.append(t)
+    variants.append(clone("pos_unchanged"))
+    d = tlc.scratch("%s_neg_traces" % pid.lower())
+    path = os.path.join(d, "neg.ndjson")
+    import json
+    with open(path, "w") as f:
+        for t in variants:
+            for i, e in enumerate(t):
+                e["i"] = i
+                f.write(json.dumps(e) + "\n")
+    _, r = _tlc_shard((0, path, "%s_neg" % pid.lower()))
+    v = tlc.emitted(r, "VERDICT")[0]
+    rejected = {b["tid"]: b["why"] for b in v["bad"]}
+    want = {"neg_payload", "neg_pong_removed", "neg_pong_payload", "neg_opcode", "neg_req"}
+    ctx.notes["negative_controls"] = {"rejected": rejected, "accepted": v["accepted"]}
+    if set(rejected) != want or v["accepted"] != 1:
+        ctx.machinery_error = "negative controls: expected %s rejected and 1 accepted, got %s / %d" % (sorted(want), rejected, v["accepted"])
+
+
+def replay(ctx, pid, path):
+    import json
+    c = json.load(open(path))["case"]
+    sc = c["scenario"]
+    sc["stream"] = bytes(sc["stream"])
+    rejected = validate(ctx, pid, [sc], "replay")
+    judge(ctx, pid, rejected)
+    for e in run_scenario(sc):
+        print({k: v for k, v in e.items() if k not in ("tid",)})
+    return ctx.finish()
